@@ -1,0 +1,55 @@
+//go:build verif
+// +build verif
+
+// Read-only views for the verification harness (property C17, see /verif): copies of the RPC
+// error tables and of the default DC list, and a way to run tryToProcessErr on a client that
+// was never connected.  Compiled only with `-tags verif`; nothing here is used by the library.
+
+package mtproto
+
+// VerifErrRow is one row of specificErrors; Kind is reflect.Kind.String() ("int", "string", ...).
+type VerifErrRow struct {
+	Prefix string
+	Suffix string
+	Kind   string
+}
+
+// VerifSpecificErrors returns a copy of the prefix/suffix table in its matching order.
+func VerifSpecificErrors() []VerifErrRow {
+	res := make([]VerifErrRow, 0, len(specificErrors))
+	for _, e := range specificErrors {
+		res = append(res, VerifErrRow{Prefix: e.prefix, Suffix: e.suffix, Kind: e.kind.String()})
+	}
+	return res
+}
+
+// VerifErrorMessages returns a copy of the error catalogue (name -> description).
+func VerifErrorMessages() map[string]string {
+	res := make(map[string]string, len(errorMessages))
+	for k, v := range errorMessages {
+		res[k] = v
+	}
+	return res
+}
+
+// VerifDefaultDCList returns the DC table a new client starts with.
+func VerifDefaultDCList() map[int]string {
+	return defaultDCList()
+}
+
+// VerifTryToProcessErr runs the real tryToProcessErr on a client that has the given DC table
+// and address and no connection.  It returns the client's address afterwards and the error
+// tryToProcessErr returned.  Reconnect, when reached, dials the new address for real, so the
+// caller passes addresses that fail to resolve locally (no port) and observes the dial error.
+func VerifTryToProcessErr(dclist map[int]string, addr string, e *ErrResponseCode) (string, error) {
+	m := &MTProto{
+		addr:         addr,
+		dclist:       make(map[int]string, len(dclist)),
+		stopRoutines: func() {},
+	}
+	for k, v := range dclist {
+		m.dclist[k] = v
+	}
+	err := m.tryToProcessErr(e)
+	return m.addr, err
+}
